@@ -25,7 +25,7 @@ func genValueListOver(r *rand.Rand, n int, ifaces bool, uniqueTypedType bool, po
 	names := []string{"a", "b", "c", "dd", "e"}
 	if r.Intn(6) == 0 {
 		// names that are not Go identifiers (legal in a struct tag)
-		names = []string{"a-b", "1st", "_x", "d/d", "é1"}
+		names = []string{"a-b", "-", "_x", "d/d", "é1"}
 	}
 	var out []Label
 	usedN := map[string]bool{}
@@ -48,7 +48,7 @@ func genValueListOver(r *rand.Rand, n int, ifaces bool, uniqueTypedType bool, po
 			if r.Intn(5) == 0 {
 				// free-form subtypes (media types, versions, key=value): anything
 				// without a comma or a quote is legal in a tag option
-				l.Sub = pick(r, []string{"application/vnd.api+json", "a+b", "v1.2", "k=v", "two words", "50%", "ü/ö", "a:b;c"})
+				l.Sub = pick(r, []string{"application/vnd.api+json", "a+b", "v1.2", "k=v", "two words", "50%2C%", "ü/ö", "a:b;c"})
 			}
 		}
 		if l.Name != "" {
